@@ -16,9 +16,10 @@ verus! {
 //@@ INCLUDE lib/mem_req_stubs.rs
 pub mod mul {
 use super::*;
-/// integer/src/mul/mod.rs:17,22 (mirrored)
-pub const THRESHOLD_SIMPLE: usize = 24;
-pub const THRESHOLD_KARATSUBA: usize = 192;
+// the REAL threshold constants (rule E4): lib/mem_need.rs need() mirrors 24 / 192 as literals, so a changed constant
+// makes the dispatch obligations fail
+//@@ CONST integer/memsize/c_mul_thr_simple.rs
+//@@ CONST integer/memsize/c_mul_thr_kara.rs
 //@@ FN integer/memsize/mul_req_up_to.rs
 //@@ FN integer/memsize/mul_req_exact.rs
 //@@ SIG integer/memsize/disp_same_len.rs
@@ -33,8 +34,7 @@ use super::super::*;
 }
 pub mod sqr {
 use super::*;
-/// integer/src/sqr/mod.rs:15 (mirrored)
-pub const MAX_LEN_SIMPLE: usize = 30;
+//@@ CONST integer/memsize/c_sqr_max_len_simple.rs
 pub mod simple {
 use super::super::*;
 //@@ SIG integer/mul_algos/square.rs
